@@ -60,6 +60,14 @@ def jde_inputs(seed, shard, nb, nr):
         for j in range(30, 90):
             out.append(b0 + j)
             out.append(b0 + j + 0.5)
+        # (the estimate above follows the Julian year and drifts away from the Gregorian 1 March by 7.5 days per
+        # millennium: the library places the boundary itself - as an input only)
+        try:
+            b1 = Epoch(c, 3, 1).jde()
+            for j in range(-12, 13):
+                out += [b1 + j, b1 + j + 0.5, b1 + j + 0.999]
+        except Exception:
+            pass
     for _ in range(nr):
         out.append(rng.uniform(0.0, 5.4e6))
     out = sorted(set(x for x in out if 0.0 <= x <= 5.4e6))
